@@ -23,6 +23,41 @@ pub struct Case {
     pub foreign: bool,
 }
 
+fn lolv_frac(f: u16, len: usize) -> usize {
+    crate::tape::frac_to_pos(f, len)
+}
+
+/// WHATWG preprocessing applied to what lol-html (which does not preprocess) reports:
+/// CRLF / CR -> LF everywhere; NUL -> U+FFFD except in data-state and CDATA text.
+fn pre(s: &str, keep_nul: bool) -> String {
+    let s = s.replace("\r\n", "\n").replace('\r', "\n");
+    if keep_nul { s } else { s.replace('\0', "\u{fffd}") }
+}
+
+fn preprocess(v: Vec<T>) -> Vec<T> {
+    v.into_iter()
+        .map(|t| match t {
+            T::Text(s, m) => {
+                let keep = m == "Data" || m == "CDataSection";
+                T::Text(pre(&s, keep), m)
+            }
+            T::Comment(c) => T::Comment(pre(&c, false)),
+            T::Start { name, attrs, sc } => {
+                let mut out: Vec<(String, String)> = vec![];
+                for (n, v) in attrs {
+                    let n = pre(&n, false);
+                    if !out.iter().any(|(x, _)| *x == n) {
+                        out.push((n, pre(&v, false)));
+                    }
+                }
+                T::Start { name: pre(&name, false), attrs: out, sc }
+            }
+            T::End(n) => T::End(pre(&n, false)),
+            T::Doctype { name, pid, sid, fq } => T::Doctype { name: name.map(|x| pre(&x, false)), pid: pid.map(|x| pre(&x, false)), sid: sid.map(|x| pre(&x, false)), fq },
+        })
+        .collect()
+}
+
 fn amp_safe(s: String) -> String {
     // '&' only where it cannot start a character reference
     let b: Vec<char> = s.chars().collect();
@@ -58,7 +93,19 @@ pub fn decode(tape: &[u16]) -> Case {
                 s.push_str(*t.pick(HTML_FRAGS));
             }
         }
-        amp_safe(s.replace('\r', "\n").replace('\0', "0"))
+        let mut s = amp_safe(s.replace('\r', "\n").replace('\0', "0"));
+        // WHATWG input preprocessing: CR / CRLF / NUL sprinkled into 1/6 of the soups
+        if t.chance(1, 6) {
+            let k = t.range(1, 4);
+            for _ in 0..k {
+                let mut at = lolv_frac(t.frac(), s.len());
+                while !s.is_char_boundary(at) {
+                    at -= 1;
+                }
+                s.insert_str(at, *t.pick(&["\r", "\r\n", "\0", "\r\r", "\n\r"]));
+            }
+        }
+        s
     };
     let cuts = spec.resolve(input.len());
     Case { input, cuts, capture, foreign }
@@ -244,7 +291,7 @@ pub fn check_case(c: &Case, st: &mut Stats) -> PResult {
         }
         Err(e) => fail!("C03: strict run failed with {e}\n  input={:?}", c.input),
         Ok(got) => {
-            let got = normalise(got, types);
+            let got = normalise(preprocess(got), types);
             if got != expected {
                 let k = got.iter().zip(expected.iter()).position(|(a, b)| a != b).unwrap_or(got.len().min(expected.len()));
                 let msg = format!(
@@ -261,7 +308,7 @@ pub fn check_case(c: &Case, st: &mut Stats) -> PResult {
             let loose = lol(c.input.as_bytes(), &c.cuts, false, c.capture).map_err(|p| Failure::new(format!("C03: panic in non-strict run: {p}")))?;
             st.eval();
             match loose {
-                Ok(l) => ensure!(normalise(l, types) == got, "C03: non-strict run differs from the successful strict run\n  input={:?}", c.input),
+                Ok(l) => ensure!(normalise(preprocess(l), types) == got, "C03: non-strict run differs from the successful strict run\n  input={:?}", c.input),
                 Err(e) => fail!("C03: non-strict run failed ({e}) although the strict run succeeded"),
             }
         }
@@ -269,6 +316,7 @@ pub fn check_case(c: &Case, st: &mut Stats) -> PResult {
     let b = c.input.as_bytes();
     let textmode_or_foreign = crate::gens::soup::has_text_mode_or_foreign(b);
     let special = ["</scr", "</titl", "</sty", "</textare", "<!--", "<select", "<template", "<frameset", "<table", "<![CDATA[", "foreignobject", "<desc", "<mi", "annotation-xml"].iter().any(|s| contains_ci(b, s)) || b.ends_with(b"<") || b.windows(3).any(|w| w[0] == b'<' && w[1].is_ascii_alphabetic() && w[2] == b' ');
+    st.label_if(c.input.contains('\r') || c.input.contains('\0'), "cr_or_nul");
     st.label_if(c.foreign, "foreign_grammar");
     st.label_if(!c.foreign, "html_soup");
     st.label_if(textmode_or_foreign, "text_mode_or_foreign");
@@ -315,7 +363,7 @@ impl Prop for C03 {
     }
     fn plan(&self, tier: Tier) -> Plan {
         match tier {
-            Tier::Quick => Plan { cases: 250_000, tape_len: 300 },
+            Tier::Quick => Plan { cases: 1_000_000, tape_len: 300 },
             Tier::Thorough => Plan { cases: 8_000_000, tape_len: 420 },
         }
     }
